@@ -527,6 +527,15 @@ def run_action_codec(ck: core.Check, quick: bool):
     get_row_model_fields / _get_row_action / _get_row_node on generated actions of every kind and on
     generated row fields; C = every action inside `Expressible` comes back from its own row on the real
     code (row model, --strip_uuids row, real cell layer alone and in a shared sheet)."""
+    from rpft.parsers.creation.flowparser import FlowParser
+
+    if not (callable(getattr(FlowParser, "_get_row_action", None)) and callable(getattr(FlowParser, "_get_row_node", None))):
+        # the codec streams read the compile side of ONE row through these two (private) methods; a tree that
+        # does not have them cannot be observed at this level: the correspondence is broken (not a violation), the
+        # whole-flow round trip below still evaluates the property itself on this tree
+        ck.tie_break("action codec: FlowParser._get_row_action / _get_row_node (the harness' handle on the compile side of one row) do not exist in this tree",
+                     {"note": "renamed or restructured? the whole-flow round-trip stream is unaffected"})
+        return
     AC.known_streams(ck)
     AC.witness_stream(ck)
     n_act, n_rows = (260, 220) if quick else (1300, 1100)
